@@ -35,12 +35,19 @@ def _ctor_args(prog, fi, call, target_cls):
     """name -> ast for a constructor call, mapped onto the __init__ parameters"""
     init = prog.lookup_method(target_cls, "__init__")
     names = [p for p in init.params if p != init.self_name]
+    # name the arguments by the attribute the constructor stores them in (robust against renamed parameters)
+    attr_of = {}
+    for s_ in R.self_stores(init):
+        if s_.kind == "plain" and isinstance(s_.value, ast.Name) and s_.value.id in names:
+            attr_of.setdefault(s_.value.id, s_.attr)
+    names = [attr_of.get(p, p) for p in names]
+    kwmap = {p: attr_of.get(p, p) for p in attr_of}
     out = {}
     for k, a in enumerate(call.args):
         if k < len(names):
             out[names[k]] = a
     for kw in call.keywords:
-        out[kw.arg] = kw.value
+        out[kwmap.get(kw.arg, kw.arg)] = kw.value
     return out
 
 
@@ -236,14 +243,21 @@ def run(prog, ctx):
     okret = False
     if rets:
         t = Terms(uc.node, max_depth=0).term(rets[0].ast.value)
-        okret = t in (("op", "Mult", tuple(sorted((("n", "update_dimension"), ("c", "-1")), key=repr))), ("neg", ("n", "update_dimension")))
-        inits = [b for b in tmu.env.bindings.get("update_dimension", []) if b.kind == "assign"]
+        # role of the running minimum: the local the return value negates
+        acc = None
+        if t[0] == "neg" and t[1][0] == "n":
+            acc = t[1][1]
+        elif t[0] == "op" and t[1] == "Mult" and len(t[2]) == 2 and ("c", "-1") in t[2]:
+            o = [x for x in t[2] if x != ("c", "-1")]
+            acc = o[0][1] if o and o[0][0] == "n" else None
+        okret = acc is not None
+        inits = [b for b in tmu.env.bindings.get(acc, []) if b.kind == "assign"]
         zero_init = any(tmu.term(b.value) == ("c", "0") for b in inits)
         mins = [b for b in inits if tmu.term(b.value)[0] == "a" and tmu.term(b.value)[2] == "coarsening_level"]
         okmin = False
         for b in mins:
             guards = [g for (g, gn) in R.dominating_guards(uc, cfg_of(uc).node_of(b.stmt), tmu) if gn.kind == "test"]
-            if any(g[0] == "cmp" and g[1] == "Lt" and g[3] == ("n", "update_dimension") and g[2] == tmu.term(b.value) for g in guards):
+            if any(g[0] == "cmp" and g[1] == "Lt" and g[3] == ("n", acc) and g[2] == tmu.term(b.value) for g in guards):
                 okmin = True
         okret = okret and zero_init and okmin
     ctx.check(okret, "C06.D4", R.key_of(uc, "returns-deficit"), uc.loc(),
@@ -343,18 +357,22 @@ def run(prog, ctx):
                 v = s.value
                 tmm = Terms(f.node, max_depth=0)
                 guards = [g for (g, gn) in R.dominating_guards(f, R.cfg_node(f, s.stmt), tmm) if gn.kind == "test"]
-                has_param = "margin" in f.params
+                # role of the margin parameter: the parameter that some store of self.margin in this method reads
+                pnames = [x.id for s2 in R.self_stores(f, "margin") if s2.value is not None for x in ast.walk(s2.value)
+                          if isinstance(x, ast.Name) and x.id in f.params and x.id != f.self_name]
+                MP = pnames[0] if pnames else "margin"
+                has_param = MP in f.params
                 ok = False
                 why = "`%s`" % src(s.stmt)
                 if isinstance(v, ast.Constant) and isinstance(v.value, (int, float)):
-                    ok = (not has_param) or ("cmp", "Is", ("n", "margin"), ("c", "None")) in guards
+                    ok = (not has_param) or ("cmp", "Is", ("n", MP), ("c", "None")) in guards
                     why = "the default %r is stored although a margin parameter exists and was not tested for None" % v.value
-                elif isinstance(v, ast.Name) and v.id == "margin":
-                    ok = not guards or guards == [("cmp", "IsNot", ("n", "margin"), ("c", "None"))]
+                elif isinstance(v, ast.Name) and v.id == MP:
+                    ok = not guards or guards == [("cmp", "IsNot", ("n", MP), ("c", "None"))]
                     why = "the margin parameter is stored only under %s" % [show(g) for g in guards]
                 elif isinstance(v, ast.IfExp):
                     t = tmm.term(v.test)
-                    ok = t in (("cmp", "IsNot", ("n", "margin"), ("c", "None")), ("cmp", "Is", ("n", "margin"), ("c", "None")))
+                    ok = t in (("cmp", "IsNot", ("n", MP), ("c", "None")), ("cmp", "Is", ("n", MP), ("c", "None")))
                     why = "the choice between the caller's margin and the default tests %s, not `margin is None`" % show(t)
                 else:
                     why = "`%s` does not take the caller's margin as given (a truthiness test treats margin=0 as missing)" % src(s.stmt)
